@@ -43,8 +43,12 @@ def build(P):
         last = f["id"].rsplit("::", 1)[1]
         nm = f["name"]
         # clamped against a collection length / constant: bounded
-        if last in ("min", "clamp") and (nm.startswith("std::cmp::") or nm.startswith("core::cmp::")):
+        if last == "clamp" and (nm.startswith("std::cmp::") or nm.startswith("core::cmp::")):
             return True
+        if last == "min" and (nm.startswith("std::cmp::") or nm.startswith("core::cmp::")):
+            # `min` bounds from above only: enough for unsigned values, not for signed ones (a very negative value survives)
+            ty = P.local_ty(fn, t["d"][0]) if not t["d"][1] else ""
+            return ty in ("usize", "u64", "u32", "u16", "u8", "u128")
         if last in ("len", "size", "count", "chars", "is_some", "is_none", "is_ok", "is_err", "is_empty", "to_string", "render",
                     "to_kstr", "source", "type_name", "cmp", "partial_cmp", "eq", "ne", "contains_key", "get"):
             return True
@@ -173,6 +177,90 @@ def dominating_compare(P, fn, bi, ops):
     return None
 
 
+def sat_guard(P, fn, bi, ops):
+    """`c - a` on the true edge of `a.saturating_add(b) > c` (b a signed value): then c - a < b <= MAX, and with a <= c
+    established elsewhere the difference cannot overflow. Machine-checked shape: the site is dominated by that comparison's
+    true edge and not reachable from its false edge."""
+    if len(ops) != 2:
+        return None
+    lc, la = op_local(ops[0]), op_local(ops[1])
+    if not lc or not la:
+        return None
+    vc, va = value_id(fn, lc[0]), value_id(fn, la[0])
+    sat = {}
+    for b2, t2 in P.calls(fn):
+        f2 = t2.get("f")
+        if f2 and f2["id"].rsplit("::", 1)[1] == "saturating_add" and t2["args"] and not t2["d"][1]:
+            a0 = op_local(t2["args"][0])
+            if a0 and value_id(fn, a0[0]) == va:
+                sat[t2["d"][0]] = b2
+    if not sat:
+        return None
+    for ci, b in enumerate(fn.blocks):
+        if ci == bi or not P.dominates(fn, ci, bi):
+            continue
+        t = b["t"]
+        if t["k"] != "switch":
+            continue
+        sl = op_local(t["o"])
+        for st in b["s"]:
+            if st[0] == "a" and sl and st[1][0] == sl[0] and st[2]["k"] == "bin" and st[2]["op"] in ("Gt", "Lt"):
+                x, y = op_local(st[2]["a"]), op_local(st[2]["b"])
+                if not x or not y:
+                    continue
+                big, small = (x, y) if st[2]["op"] == "Gt" else (y, x)
+                from mirutil import copy_root
+                if copy_root(fn, big[0]) in sat and value_id(fn, small[0]) == vc:
+                    fb = [tb for v, tb in t["t"] if v == 0]
+                    if fb and bi not in P.reach(fn, fb, stop={ci}):
+                        return "`a.saturating_add(b) > c` dominates `c - a` (line %d)" % st[3]
+    return None
+
+
+def opposite_signs(P, fn, bi, ops):
+    """`x + y` where a dominating test established x < 0 and y is a collection length cast to a signed type (>= 0)."""
+    if len(ops) != 2:
+        return None
+    from mirutil import defs_of
+    for i in (0, 1):
+        lx, ly = op_local(ops[i]), op_local(ops[1 - i])
+        if not lx or not ly:
+            continue
+        vx = value_id(fn, lx[0])
+        # y: result of an IntToInt cast from an unsigned type
+        cur = ly[0]
+        nonneg = False
+        for _ in range(5):
+            ds = defs_of(fn, cur)
+            if len(ds) != 1 or ds[0][0] != "a":
+                break
+            rv = ds[0][3]
+            if rv["k"] == "cast" and rv["ck"] == "IntToInt" and P.tstr(fn.crate, rv["from"]) in ("usize", "u64", "u32", "u16", "u8"):
+                nonneg = True
+                break
+            if rv["k"] == "use" and op_local(rv["o"]):
+                cur = op_local(rv["o"])[0]
+                continue
+            break
+        if not nonneg:
+            continue
+        for ci, b in enumerate(fn.blocks):
+            if ci == bi or not P.dominates(fn, ci, bi):
+                continue
+            t = b["t"]
+            if t["k"] != "switch":
+                continue
+            sl = op_local(t["o"])
+            for st in b["s"]:
+                if st[0] == "a" and sl and st[1][0] == sl[0] and st[2]["k"] == "bin" and st[2]["op"] == "Lt":
+                    a0 = op_local(st[2]["a"])
+                    if a0 and value_id(fn, a0[0]) == vx and st[2]["b"][0] == "k" and isinstance(st[2]["b"][1], dict) and st[2]["b"][1].get("val") == 0:
+                        fb = [tb for v, tb in t["t"] if v == 0]
+                        if fb and bi not in P.reach(fn, fb, stop={ci}):
+                            return "negative value (dominating `x < 0`, line %d) plus a length cast from an unsigned type: opposite signs never overflow" % st[3]
+    return None
+
+
 def zero_guard(P, fn, bi, divisor_op):
     """Divisor proven non-zero: a constant != 0, or a dominating test `d == 0` / switch on d whose
     zero edge does not reach the site."""
@@ -287,9 +375,13 @@ def run(P, rep, scope=None, rule="R-ARITH", reach=None):
                 rep.count(rule + ".untainted")
                 continue
             n_tainted += 1
-            g = dominating_compare(P, fn, bi, ops) if kind in ("Overflow(Sub)",) else None
+            g = None
+            if kind == "Overflow(Sub)":
+                g = dominating_compare(P, fn, bi, ops) or sat_guard(P, fn, bi, ops)
+            elif kind == "Overflow(Add)":
+                g = opposite_signs(P, fn, bi, ops)
             if g:
-                rep.ok(rule, site, where, "operands ordered by a dominating comparison (%s)" % g)
+                rep.ok(rule, site, where, "discharged by a dominating guard (%s)" % g)
             elif site in ledger:
                 rep.ok(rule, site, where, "ledger %s: %s" % ledger[site])
                 rep.trusted.add("ledger/arith.tsv: " + site)
